@@ -181,6 +181,15 @@ def explore(ctx):
                 exp = "1:ctx"
             tk = "%s:%s,%s:%s" % (b"K1".hex(), b"t1".hex(), b"K2".hex(), b"t2".hex())
             lines.append(scn.line("scn", "g%d" % rep, s, extra="nt=1 family=deadline-with-tag-extraction tagkeys=%s expect=%s" % (tk, exp)))
+        # the connection refuses the call frame's write whole with an error that calls itself temporary, and the caller gives up
+        # right then: whatever the library does about the write, a cancellation frame never precedes its call frame, and a call
+        # frame that does go out is followed by its cancellation
+        for rep in range({"quick": 8, "thorough": 80, "search": 16}[tier]):
+            how = rng.choice(["cancel", "deadline"])
+            s = [scn.notify(9), "writetemp/%d" % (1 + rng.below(2)), scn.call(1, timeout=(4 if how == "deadline" else 0), nowait=True), "sleep/%d" % rng.choice([0, 1, 3])]
+            s.append(scn.cancel(1) if how == "cancel" else "await/c1")
+            s += ["writeok", "settle", "sleep/60", "settle"]
+            lines.append(scn.line("scn", "m%d" % rep, s, extra="nt=1 family=gave-up-during-temporary-write-error"))
         # calls with a timeout through a Connection's OWN client over real transports: the first attempt is throttled, the
         # retry (after a command backoff longer than what was left of the timeout) meets a peer that takes 3 s to answer:
         # every attempt carries the timeout, so the call returns its deadline error long before that
